@@ -63,8 +63,10 @@ CLAIMED["C01"] = dict(
     "tags, texts, tails, comments, child order and every non-ignored attribute, attribute order aside (scriptGen_final: the "
     "invariant of Chawathe et al. for this implementation - find_pos with its count-every-physical-child semantics, the LCS "
     "alignment, cross-parent moves, inserts in BFS order, attribute rename / update / insert / delete phases, the delete phase). "
-    "PARTIAL: that the differ never raises on the C01 domain is a hypothesis (observed per run), and namespaced documents are "
-    "outside the model (oracle stream only). Models are tied to the code by units U1 U2 U4 U5 and the end-to-end comparison; "
+    "(3) the differ itself never raises (C01_differ_completes: every path lookup succeeds, find_pos finds the in-order sibling's "
+    "partner and its parent, no node is moved into its own subtree, the delete phase finds every node it deletes) - together "
+    "C01_roundtrip, with no 'whenever it completes' hypothesis. PARTIAL: namespaced documents are outside the model (oracle "
+    "stream only). Models are tied to the code by units U1 U2 U4 U5 and the end-to-end comparison; "
     "the round-trip oracle compares patch_tree(diff_trees(L,R),L) with R on the real code.",
     note="Trusted: Lean kernel and standard axioms; hand-written models of Differ.match/diff and Patcher validated by "
     "differential execution on every run, not proved; similarity values are an oracle; namespace-free documents only "
